@@ -61,4 +61,18 @@ def saveRec (cs : List PClass) (c : PClass) (attrs : String → Nat) : Rec :=
 def loadRec (cs : List PClass) (c : PClass) (r : Rec) : Option Rec :=
   (effRead cs cs.length c).mapM (fun k => (r.get? k).map (fun v => (k, v)))
 
+/-- looking up a key of a record built from a key list -/
+theorem get_saveRec (ks : List String) (attrs : String → Nat) (k : String) (hk : k ∈ ks) :
+    Rec.get? (ks.map (fun k => (k, attrs k))) k = some (attrs k) := by
+  induction ks with
+  | nil => cases hk
+  | cons a ks ih =>
+    simp only [List.map_cons, Rec.get?]
+    by_cases e : a = k
+    · subst e; simp
+    · rw [if_neg e]
+      rcases List.mem_cons.mp hk with h | h
+      · exact absurd h.symm e
+      · exact ih h
+
 end SFV.Persist
